@@ -101,16 +101,78 @@ def run(tier, v):
         v.violation({"signature": e["line"], "table": e["table"], "entry": e["i"], "choice": e["choice"], "frame": "".join("%02x" % b for b in e["frame"]),
                      "acceptable_labels": sorted(map(str, accept)), "observed_label": lab, "observed_observation": res["text"], "observed_quality_x100": res["q"],
                      "code_model_predicts": pred, "code_model_reasons": e["reasons"], "reason_deviations": sorted(devs)})
+    hn, hok, hlines, hdead, hstates, htrans = run_http(v, wd, sigs, K, samples)
+    dead.update(hdead)
+    n += hn
+    n_ok += hok
+    sig_lines |= hlines
     return v.finish("model_checking", {
-        "states": r.distinct, "transitions": r.generated, "traces_validated_against_impl": n,
+        "states": r.distinct + hstates, "transitions": r.generated + htrans, "traces_validated_against_impl": n,
         "evaluations": n, "distinct_nontrivial": len(sig_lines),
-        "rule": "every TCP signature of the bundled database (%d lines) x grid choices (version, hops, MSS, scale, ECN placement, payload; %s grid): %d packets, %d matched an acceptable label; "
+        "rule": "every TCP and HTTP signature of the bundled database (%d lines; HTTP: both versions for `*`, optional headers in/out, software token alone and embedded) x grid choices (version, hops, MSS, scale, ECN placement, payload; %s grid): %d packets, %d matched an acceptable label; "
                 "non-trivial = distinct signature lines exercised" % (len(sig_lines), tier, n, n_ok),
         "samples": samples or [{"note": "none drawn"}], "exhaustive": False,
         "signature_lines_unreachable_for_some_conforming_packet": {k: sorted(s) for k, s in sorted(dead.items())},
     }, ["conformance (Reach!Conforms) follows the p0f field definitions: quirks as a set restricted to the packet's IP version, `nnn-` as an upper bound, raw window against the stated form",
         "the code model (Reach!CodeObs + Match!TcpDist) is used only to recognise recorded findings, never to accept a result",
-        "HTTP signatures are covered by the HTTP half (when built)"])
+        "HTTP conformance (MC_C13H!Conforms) is judged on the message: listed headers in order with optional ones possibly missing, listed values, absent list, token contained"])
+
+
+HTTP_REASON_DEV = {"sw": "D12_sw_reversed", "horder": "D13_http_header_values", "habsent": "D13_http_header_values", "shadowed": "D13_http_shadowed"}
+WHAT.update({
+    "D12_sw_reversed": "the software-string test is reversed (signature.contains(observed)): a real User-Agent / Server value that contains the signature's token is not an instance",
+    "D13_http_header_values": "the observation prints the value of every header outside the two elision lists and compares header names case-sensitively with the absent list, so signatures that list such a header without a value (any value), or whose absent list names a header the message spells differently, score header mismatches",
+    "D13_http_shadowed": "another entry reaches a distance no larger than the signature's own for its conforming traffic and is found first",
+})
+
+
+def run_http(v, wd, sigs, K, samples):
+    vec = os.path.join(wd, "http-vectors.ndjson")
+    exp = {}
+    with open(vec, "w") as f:
+        def sink(tag, o):
+            if tag == "STAT":
+                exp.setdefault("skipped", []).append(o)
+                return
+            i = len([k for k in exp if k != "skipped"])
+            exp[i] = o
+            data = ("\r\n".join(o["lines"]) + "\r\n\r\n").encode()
+            f.write(json.dumps({"id": i, "op": "match", "kind": o["kind"], "data": data.hex()}) + "\n")
+        r = vlib.tlc("MC_C13H", pid=PID, workers=8, tag_sink=sink, timeout=3000, heap="10g", env={"SIGS": sigs}, coverage=False)
+    if r.inv_violated:
+        raise vlib.ToolError("MC_C13H: a message built for a signature does not conform to it under the definition")
+    out = os.path.join(wd, "http-observed.ndjson")
+    vlib.run_hv("http", vec, out)
+    n = n_ok = 0
+    lines = set()
+    dead = {}
+    for o in vlib.read_ndjson(out):
+        e = exp[o["id"]]
+        n += 1
+        lines.add((e["table"], e["i"]))
+        if o["r"] != "some":
+            v.violation({"signature": e["line"], "table": e["table"], "message": e["lines"], "observed": o})
+            continue
+        lab = label_key(o["v"]["label"])
+        accept = {label_key(l) for l in e["accept"]}
+        if lab in accept:
+            n_ok += 1
+            if len(samples) < 4 and n % 211 == 1:
+                samples.append({"signature": e["line"], "message": e["lines"], "observation": o["v"]["text"], "matched": o["v"]["label"], "quality_x100": o["v"]["q"]})
+            continue
+        pred = label_key(e["predicted"][0]) if e["predicted"] else None
+        devs = {HTTP_REASON_DEV.get(x, "?" + x) for x in e["reasons"]}
+        if lab == pred and devs and devs <= K:
+            for d in devs:
+                v.known_hit(d, WHAT[d])
+            dead.setdefault(e["line"], set()).update(devs)
+            continue
+        v.violation({"signature": e["line"], "table": e["table"], "entry": e["i"], "message": e["lines"], "acceptable_labels": sorted(map(str, accept)),
+                     "observed_label": lab, "observed_observation": o["v"]["text"], "observed_quality_x100": o["v"]["q"], "code_model_predicts": pred,
+                     "code_model_reasons": e["reasons"], "reason_deviations": sorted(devs)})
+    for sk in exp.get("skipped", []):
+        dead.setdefault(sk["skipped"], set()).add("not constructible: " + sk["why"])
+    return n, n_ok, lines, dead, r.distinct, r.generated
 
 
 def replay(path, v):
